@@ -74,6 +74,13 @@ func AllFeatures() Features {
 	return Features{CmpRhsArith: true, UnaryMinus: true, SetOpInDerived: true, WithInDerived: true, LowerCompound: true, QuantifierCase: true, KeywordCase: true, QuotedKeywordID: true, IsNotNull: true, NotExists: true, UsingJoin: true, FrameOffsets: true, BoolLiteralCase: true, Redundant: true, MaxDepth: 3}
 }
 
+// FullFeatures is AllFeatures plus MERGE and the DDL statements with all their options.
+func FullFeatures() Features {
+	f := AllFeatures()
+	f.DDL, f.Merge, f.QuotedDDLNames, f.IndexNulls, f.DDLExtras = true, true, true, true, true
+	return f
+}
+
 // Names records what the generator placed (for C15/C16).
 type Names struct {
 	Tables    map[string]bool // as written (qualified)
